@@ -17,6 +17,7 @@
 -/
 import SpgProofs.Lemmas.Rand
 import Spg.Generated.Facts
+import SpgProofs.Lemmas.FactPreds
 namespace Spg.C09
 open Spg
 
@@ -352,6 +353,13 @@ theorem rand_sites :
     (Generated.Facts.sensitiveCalls.all fun c => c.2.2.1 == "crypto/rand.Read") = true ∧
     Generated.Facts.sensitiveCalls ≠ [] := by
   decide
+
+/-- **Nothing else to draw on**: the package keeps no state in which bytes of one call could
+linger for another — its package-level variables are plain shipped data and configuration that
+nothing assigns, slices or hands out, and the separator presets. A read buffer, a "previous block"
+for a health test, a pool of scratch values at package level falsifies this. -/
+theorem no_lingering_state : FactPreds.packageStateOK = true ∧
+    (Generated.Facts.sharedWrites.filter fun w => w.2.2 == "pkgvar") = [] := by decide
 
 /-! ### Non-vacuity -/
 
